@@ -648,6 +648,7 @@ namespace c15
             symp = keylevel ? &key_alphabet() : &raw_alphabet(true);
             if ((int)(cap + 16) > sink.scr.w) // large capacities: prompt + cap + '^C' + margin
                 sink.scr.w = (int)(cap + 16) < (int)ref::Screen::MAXW ? (int)(cap + 16) : (int)ref::Screen::MAXW;
+            mc::crash_context("%sinit_prompt", pre.c_str());
             vt.init_step(); // prompt
         }
         int nops() override { return (int)symp->size(); }
